@@ -44,6 +44,23 @@ Theorem C18_rw_log_legal :
 Proof. exact glog_legal. Qed.
 Print Assumptions C18_rw_log_legal.
 
+(* the log lists operations in the order of their acquire events, and every
+   thread's visible events go call -> acquire -> return: each linearization
+   point lies between the call and the return of its operation *)
+Theorem C18_rw_log_order :
+  forall (St Arg Res Loc Op : Type) (bodies : Op -> body St Arg Res Loc) (modes : Op -> mode)
+         s0 tr (g : gstate St Arg Res Loc Op),
+  run bodies modes (init s0) tr g -> map entry_tid (glog g) = acq_tids tr.
+Proof. exact glog_order. Qed.
+Print Assumptions C18_rw_log_order.
+
+Theorem C18_rw_acquire_between_call_and_return :
+  forall (St Arg Res Loc Op : Type) (bodies : Op -> body St Arg Res Loc) (modes : Op -> mode)
+         s0 tr (g : gstate St Arg Res Loc Op) t,
+  discipline bodies modes -> run bodies modes (init s0) tr g -> proto 0 (tproj t (erase tr)) = true.
+Proof. exact rw_acquire_between. Qed.
+Print Assumptions C18_rw_acquire_between_call_and_return.
+
 (* the boolean checker on lock tables implies the discipline for the repository bodies *)
 Theorem C18_checker_sound :
   forall t, discipline_ok t = true -> discipline repo_body (mode_of t).
@@ -84,6 +101,26 @@ Theorem C18_repo_quiescent :
     (forall tid, ~ insec (th g tid)) -> store g = ghost g.
 Proof. exact lock_table_quiescent. Qed.
 Print Assumptions C18_repo_quiescent.
+
+Theorem C18_repo_acquire_between_call_and_return :
+  forall s0 tr (g : gstate St arg res loc op) t,
+    run repo_body (mode_of lock_table) (init s0) tr g -> proto 0 (tproj t (erase tr)) = true.
+Proof. exact lock_table_acquire_between. Qed.
+Print Assumptions C18_repo_acquire_between_call_and_return.
+
+Theorem C18_repo_log_order :
+  forall s0 tr (g : gstate St arg res loc op),
+    run repo_body (mode_of lock_table) (init s0) tr g -> map entry_tid (glog g) = acq_tids tr.
+Proof. exact lock_table_log_order. Qed.
+
+(* from the empty repository every sequential state the history goes through has
+   distinct file ids and distinct batch ids per file (side conditions of the
+   specification facts below) *)
+Theorem C18_repo_store_wellformed :
+  forall tr (g : gstate St arg res loc op),
+    run repo_body (mode_of lock_table) (init []) tr g -> good (ghost g).
+Proof. exact lock_table_ghost_good. Qed.
+Print Assumptions C18_repo_store_wellformed.
 
 (* non-vacuity of the discipline hypothesis: one downgraded (Lock -> RLock) or
    dropped lock makes the checker fail AND admits a schedule on which a thread
@@ -129,3 +166,8 @@ Theorem C18_spec_batch_gone_after_delete :
   snd (repo_spec FindBatch a' (fst (repo_spec DeleteBatch a s))) = RErr ENotFound.
 Proof. exact spec_find_after_delete_batch. Qed.
 Print Assumptions C18_spec_batch_gone_after_delete.
+
+Theorem C18_spec_preserves_wellformed :
+  forall o a s, good s -> good (fst (repo_spec o a s)).
+Proof. exact spec_good. Qed.
+Print Assumptions C18_spec_preserves_wellformed.
